@@ -1,8 +1,8 @@
-CONSTANTS Graphs <- G12
+CONSTANTS Graphs <- G12q
 Source = "strings"
 WalkLen = 0
 NEdits = 0
-MaxLen = 7
+MaxLen = 6
 Heaps <- H013
 EmitOn = TRUE
 INIT Init
